@@ -208,7 +208,7 @@ func (c *Ctx) adp9() {
 	for _, p := range paths {
 		for i := range p.Events {
 			e := &p.Events[i]
-			if e.Kind != pathx.KCall || e.Fn != ad || e.Call == nil {
+			if e.Kind != pathx.KCall || !c.inRegion(ad, e) || e.Call == nil {
 				continue
 			}
 			if bl, ok := e.Call.Value.(*ssa.Builtin); !ok || bl.Name() != "append" {
@@ -273,14 +273,22 @@ func (c *Ctx) adp9() {
 	}
 
 	for _, p := range paths {
-		choice := phiChoices(p, ad)
+		choice := phiChoicesAll(p)
+		binds := pathBindings(p)
 		var expand func(v ssa.Value, d int) ssa.Value
 		expand = func(v ssa.Value, d int) ssa.Value {
 			v = stripConv(v)
-			if phi, ok := v.(*ssa.Phi); ok && d < 20 {
+			if d >= 20 {
+				return v
+			}
+			if phi, ok := v.(*ssa.Phi); ok {
 				if e, ok := choice[phi]; ok {
 					return expand(e, d+1)
 				}
+			}
+			// a helper introduced later: its parameter is the caller's argument, its result what it returned
+			if b, ok := binds[v]; ok && b != v {
+				return expand(b, d+1)
 			}
 			return v
 		}
@@ -361,7 +369,16 @@ func (c *Ctx) adp9() {
 				continue
 			}
 			// (the class of the value as written: a phi is of the class of its non-nil operands)
-			cell := lc.find(stripConv(arg))
+			raw := stripConv(arg)
+			rb := rawBindings(p)
+			for d := 0; d < 4; d++ {
+				b, bound := rb[raw]
+				if !bound || b == raw {
+					break
+				}
+				raw = stripConv(b)
+			}
+			cell := lc.find(raw)
 			if _, ok := kinds[cell]; !ok {
 				if cell = cellOf(arg); cell == nil {
 					continue
@@ -410,7 +427,7 @@ func (c *Ctx) adp9() {
 				record = nil
 			}
 			e := &p.Events[i]
-			if e.Kind != pathx.KStore || e.Fn != ad {
+			if e.Kind != pathx.KStore || !c.inRegion(ad, e) {
 				continue
 			}
 			st, ok := e.Instr.(*ssa.Store)
@@ -622,6 +639,29 @@ func pathBindings(p *pathx.Path) map[ssa.Value]ssa.Value {
 						}
 					}
 				}
+			}
+		}
+	}
+	return out
+}
+
+// rawBindings: parameter → the operand as written at the call (not resolved
+// along the path), for callees expanded in place.
+func rawBindings(p *pathx.Path) map[ssa.Value]ssa.Value {
+	out := map[ssa.Value]ssa.Value{}
+	for i := range p.Events {
+		e := &p.Events[i]
+		if e.Kind != pathx.KEnter || i == 0 {
+			continue
+		}
+		call := &p.Events[i-1]
+		if call.Kind != pathx.KCall || call.Callee != e.Callee || call.Call == nil {
+			continue
+		}
+		args := call.Call.Args
+		for k, pr := range e.Callee.Params {
+			if k < len(args) {
+				out[pr] = args[k]
 			}
 		}
 	}
